@@ -34,7 +34,7 @@ fn main() {
     let mode = args.get(1).map(String::as_str).unwrap_or("pure");
     match mode {
         "pure" => {
-            std::panic::set_hook(Box::new(|_| {}));
+            if std::env::var("VERIF_PANIC_MSG").is_err() { std::panic::set_hook(Box::new(|_| {})); }
             let stdin = io::stdin();
             let stdout = io::stdout();
             let mut out = io::BufWriter::new(stdout.lock());
@@ -64,7 +64,7 @@ fn main() {
             }
         }
         "smtp" => {
-            std::panic::set_hook(Box::new(|_| {}));
+            if std::env::var("VERIF_PANIC_MSG").is_err() { std::panic::set_hook(Box::new(|_| {})); }
             let threads = args.get(2).and_then(|s| s.parse().ok()).unwrap_or(16);
             smtp::main_loop(threads);
         }
